@@ -1699,6 +1699,30 @@ type scArrangement struct {
 // scTargeted builds arrangements aimed at the places where a single-pass loader can go wrong.
 func scTargeted(r *rand.Rand, w []scItem) []scArrangement {
 	var out []scArrangement
+	// 00. an extension of the schema block where no schema block is declared (the schema is derived from
+	//     the Query type): in the document that defines the types, before and behind them, and in a later load
+	{
+		declared, hasMut := false, false
+		var obj *scItem
+		for i := range w {
+			if w[i].K == kSchema {
+				declared = true
+			}
+			if w[i].K == kObject && w[i].N == 11 {
+				hasMut = true
+			}
+			if w[i].K == kObject && !w[i].Ext && w[i].N >= 20 && obj == nil {
+				obj = &w[i]
+			}
+		}
+		if !declared && !hasMut && obj != nil {
+			ext := scItem{Ext: true, K: kSchema, Fields: []scField{{N: 2, T: scT{N: obj.N}}}}
+			c := scCopy(w)
+			out = append(out, scArrangement{[][]scItem{append(append([]scItem{}, c...), ext)}, "extend-of-a-derived-schema-one-document"})
+			out = append(out, scArrangement{[][]scItem{append([]scItem{ext}, c...)}, "extend-of-a-derived-schema-first-in-the-document"})
+			out = append(out, scArrangement{[][]scItem{c, {ext}}, "extend-of-a-derived-schema-later-load"})
+		}
+	}
 	// 0. a scalar that carries the name of a directive (types and directives are named apart), the
 	//    directive used on a type defined behind it: in one document, and with the scalar and the
 	//    directive known from an earlier load when the use is read
